@@ -35,7 +35,7 @@ def run_check(tier: str, seed: int, runs: int | None = None, parallel: int | Non
     if runs:
         T["runs"] = runs
     dates = date_pool(REPO_SRC)
-    cfg = {"dates": dates, **{k: T[k] for k in ("per_class", "extra", "pairs", "var_single", "var_multi", "rows")}}
+    cfg = {"dates": dates, **{k: T[k] for k in ("per_class", "extra", "pairs", "var_single", "var_multi", "rows")}, "crowd_p": 0.12}
     xcfg = {**cfg, "exhaustive": True, "rows": (2, 6), "pairs": 0}
     engine = Engine(seed, parallel)
     open_known, _ = load_known(PROP)
@@ -69,7 +69,7 @@ def run_check(tier: str, seed: int, runs: int | None = None, parallel: int | Non
         if mism:
             raise HarnessError(f"determinism self-test failed for run indices {mism}")
 
-        S = {"evaluated": 0, "by_class": {}, "exc_hist": {}, "pairs": 0, "variants": {}, "distinct": set(), "dates": set(), "setup_failed": 0, "space": 0, "exh_space": 0, "exh_pops": 0, "inapplicable": 0, "bases": 0}
+        S = {"evaluated": 0, "by_class": {}, "exc_hist": {}, "pairs": 0, "variants": {}, "distinct": set(), "dates": set(), "setup_failed": 0, "space": 0, "exh_space": 0, "exh_pops": 0, "inapplicable": 0, "bases": 0, "crowd_bases": 0}
         samples, found = [], []
         for i in sorted(results):
             r = results[i]
@@ -78,6 +78,7 @@ def run_check(tier: str, seed: int, runs: int | None = None, parallel: int | Non
                 S["setup_failed"] += 1
                 continue
             S["bases"] += 1
+            S["crowd_bases"] += 1 if r.get("crowd") else 0
             S["evaluated"] += r["evaluated"]
             S["pairs"] += r["pairs"]
             S["space"] += r["space"]
@@ -134,6 +135,7 @@ def run_check(tier: str, seed: int, runs: int | None = None, parallel: int | Non
         "exhaustive": bool(T["exhaustive_runs"]),
         "exhaustive_scope": f"complete single-fault space of {S['exh_pops']} base populations ({S['exh_space']} faults)" if T["exhaustive_runs"] else "none in this tier (stratified sample of every class and kind per base population)",
         "base_populations": S["bases"],
+        "base_populations_with_270_or_1100_rows": S["crowd_bases"],
         "single_fault_space_of_the_bases": S["space"],
         "single_faults_by_class": dict(sorted(S["by_class"].items())),
         "fault_pairs": S["pairs"],
